@@ -51,8 +51,11 @@ def check(case, rec):
     rec.nontrivial(_multibyte(fs))
     rec.label(*S.spec_classes(fs))
     variants = [('little', [False] * n), ('big', [True] * n), ('mixed', case['mix'])]
+    enc_src = case.get('phys') or fs
+    if case.get('phys'):
+        rec.label('inheritance_plan')
     for name, order in variants:
-        data, _i, _l = encode_file(with_order(fs, order))
+        data, _i, _l = encode_file(with_order(enc_src, order))
         for mode in ('eager', 'lazy'):
             for raw_ts in (True, False):
                 opener = TdmsFile.read if mode == 'eager' else TdmsFile.open
@@ -78,8 +81,21 @@ def cases(draw, **kw):
     return {'fs': fs, 'mix': mix}
 
 
+@st.composite
+def plan_cases(draw):
+    from props.C02 import history
+    from vf import plans as P
+    h = draw(history(max_segments=6, max_channels=3))
+    phys, _plans = P.encode_with_plans(h['fs'], lambda i, alts: P.nth_plan(alts, h['picks'][i]))
+    n = len(phys['segments'])
+    # expected content comes from the logical (explicit) file; the physical encoding re-uses indexes across segments
+    return {'fs': h['fs'], 'phys': phys, 'mix': draw(st.lists(st.booleans(), min_size=n, max_size=n))}
+
+
 def jobs(tier):
     if tier == 'quick':
-        return [Job('contents', 'hyp', lambda: cases(max_segments=4), n=2500)]
+        return [Job('contents', 'hyp', lambda: cases(max_segments=4), n=2500),
+                Job('reused_indexes_mixed_order', 'hyp', plan_cases, n=1500)]
     return [Job('contents', 'hyp', lambda: cases(max_segments=5), n=100000),
-            Job('bigger', 'hyp', lambda: cases(max_segments=6, max_n=40), n=15000)]
+            Job('bigger', 'hyp', lambda: cases(max_segments=6, max_n=40), n=15000),
+            Job('reused_indexes_mixed_order', 'hyp', plan_cases, n=60000)]
